@@ -43,6 +43,10 @@ func (r *run) corpus(ctx sdk.Context) error {
 	cl := func(s int, tag string, ids ...uint64) amm.Op {
 		return amm.Op{Kind: "claim", Sender: s, Pids: ids, Tag: "corpus/" + tag}
 	}
+	// a position whose bounds are given relative to the tick the pool will be at when it is created
+	mkCur := func(s int, dlo, dup int64, tag string) amm.Op {
+		return amm.Op{Kind: "create", Sender: s, Lower: dlo, Upper: dup, Base: bi(700_000_000), Quote: bi(700_000_000), MinBase: z, MinQuote: z, Tag: "corpus/cur/" + tag}
+	}
 	first := r.nextID(ctx)
 	a, b, c, d := first, first+1, first+2, first+3
 	ops := []amm.Op{
@@ -64,6 +68,13 @@ func (r *run) corpus(ctx sdk.Context) error {
 		sw(0, true, 1, 2_000_000_000, "up-across-everything"),
 		cl(2, "claim-C", c),
 		cl(0, "claim-A", a),
+		// ranges with a bound exactly on the current tick, created after fees have accrued
+		mkCur(2, -4, 0, "E-upper-on-current"),
+		mkCur(1, 0, 5, "F-lower-on-current"),
+		sw(1, true, 0, 40_000_000, "small-down"),
+		sw(1, true, 1, 90_000_000, "small-up"),
+		cl(2, "claim-E", d+1),
+		cl(1, "claim-F", d+2),
 		cl(0, "claim-not-owner", b),
 		// an allocation made the way BeginBlock makes it (no transaction around the keeper call)
 		// whose bank send fails (the sender does not hold the coins): nothing may be accrued
@@ -72,6 +83,11 @@ func (r *run) corpus(ctx sdk.Context) error {
 		{Kind: "claim", Sender: 0, Pids: []uint64{}, Tag: "corpus/claim-empty"},
 	}
 	for _, o := range ops {
+		if len(o.Tag) > 11 && o.Tag[:11] == "corpus/cur/" {
+			pool, _, _ := r.w.K.GetPool(ctx, p.ID)
+			o.Lower += pool.CurrentTick
+			o.Upper += pool.CurrentTick
+		}
 		r.doCase(ctx, p, o, gh, false)
 	}
 	return nil
@@ -149,7 +165,11 @@ func (r *run) genOp(ctx sdk.Context, p amm.PoolInfo) amm.Op {
 				lo = q.LowerTick
 			}
 		case 6:
-			lo, up, tag = cur-a*4, cur+b*4, "wide"
+			if rd.Bool() {
+				lo, up, tag = cur-a, cur, "upper-on-current"
+			} else {
+				lo, up, tag = cur-a*4, cur+b*4, "wide"
+			}
 		default:
 			lo, up, tag = cur-a, cur+b, "around"
 		}
